@@ -94,6 +94,9 @@ class CachedStore(Entity):
         # Cache storage
         self._cache: dict[str, Any] = {}
         self._dirty_keys: set[str] = set()  # For write-back
+        # Keys with a put/delete on its way to the backing store: a miss fill
+        # that read the store meanwhile holds the older value and must not be cached.
+        self._writes_in_flight: dict[str, int] = {}
 
         # Statistics
         self._reads = 0
@@ -174,8 +177,8 @@ class CachedStore(Entity):
         self._misses += 1
         value = yield from self._backing_store.get(key)
 
-        if value is not None:
-            # Cache the value
+        if value is not None and not self._writes_in_flight.get(key) and key not in self._cache:
+            # Cache the value (unless a concurrent write already made it obsolete)
             self._cache_put(key, value)
 
         return value
@@ -200,7 +203,11 @@ class CachedStore(Entity):
 
         if self._write_through:
             # Write to backing store
-            yield from self._backing_store.put(key, value)
+            self._writes_in_flight[key] = self._writes_in_flight.get(key, 0) + 1
+            try:
+                yield from self._backing_store.put(key, value)
+            finally:
+                self._writes_in_flight[key] -= 1
         else:
             # Mark as dirty for later writeback
             self._dirty_keys.add(key)
@@ -222,7 +229,11 @@ class CachedStore(Entity):
         if existed_in_cache:
             self._cache_remove(key)
 
-        existed_in_store = yield from self._backing_store.delete(key)
+        self._writes_in_flight[key] = self._writes_in_flight.get(key, 0) + 1
+        try:
+            existed_in_store = yield from self._backing_store.delete(key)
+        finally:
+            self._writes_in_flight[key] -= 1
         return existed_in_cache or existed_in_store
 
     def invalidate(self, key: str) -> None:
